@@ -165,6 +165,14 @@ def probe : List String → String
     | some 0 => reply "true" "true" "-"
     | some _ => reply "false" "true" "caller_getter"
     | none => "bad-op"
+  -- `P evalid <depth>`: `var keep=eval; eval=function(){return 0}`; Copy()^depth; then
+  --   `eval=keep; (function(){var a=5; return eval("a")})()`.  clone.go:74 takes the copy's rt.eval from the
+  --   global PROPERTY (the other function), so after restoring the builtin a call `eval(..)` on the copy is
+  --   no longer a direct eval (type_function.go:172 compares with rt.eval): `a` is looked up globally.
+  | ["evalid", d] => match d.toNat? with
+    | some 0 => reply "5" "5" "-"
+    | some _ => reply "throw" "5" "eval_rebound"
+    | none => "bad-op"
   | _ => "bad-op"
 
 def handle (ws : List String) : String :=
@@ -173,7 +181,7 @@ def handle (ws : List String) : String :=
     match depth.toNat?, cfg.startsWith "cfg:", rootsTok.startsWith "R:" with
     | some d, true, true => handleS d (cfg.drop 4).toString (rootsTok.drop 2).toString nodeToks
     | _, _, _ => "bad-op"
-  | ["I", _depth, _side, h, m, exp] =>
+  | ["I", _parents, _side, h, m, exp] =>
     if exp.startsWith "exp:" then
       let e := (exp.drop 4).toString
       -- `.caller` is outside the checked fragment of this request kind (it has its own probe)
